@@ -127,14 +127,15 @@ struct ConnectAccept : Scenario
 {
 	int overload; int when; // when: 0 accept posted up front, 1 never posted (SYN stays queued), 2 posted late (SYN already queued)
 	std::string nm;
-	std::unique_ptr<ip::tcp::socket> cli, peer, got; std::unique_ptr<ip::tcp::acceptor> acc; ip::tcp::endpoint pep; std::unique_ptr<asio::high_resolution_timer> late;
+	std::unique_ptr<ip::tcp::socket> cli, peer, got; std::unique_ptr<ip::tcp::acceptor> acc; std::unique_ptr<asio::high_resolution_timer> late;
 	ConnectAccept(int o, int w_) : overload(o), when(w_) { nm = fmt("connect-accept(overload %d, %s)", o, w_ == 0 ? "accept first" : w_ == 1 ? "no accept" : "accept after the SYN"); }
 	const char* name() const override { return nm.c_str(); }
-	void post_accept(const char* label)
+	void post_accept(const char* label, int ov = -1)
 	{
-		Rec* r = rec(label, 1);
-		if (overload == 0) acc->async_accept(*peer, h_ec(r));
-		else if (overload == 1) acc->async_accept(*peer, pep, h_ec(r));
+		Rec* r = rec(label, 1); if (ov < 0) ov = overload;
+		if (ov == 0) acc->async_accept(*peer, h_ec(r));
+		else if (ov == 1) { // the endpoint variable lives exactly as long as the operation: it is part of the handler's state
+			auto pe = std::make_shared<ip::tcp::endpoint>(); acc->async_accept(*peer, *pe, h_ec(r, [pe](error_code const&) {})); }
 		else acc->async_accept(track(r->st, [this, r](error_code const& ec, ip::tcp::socket s) { invoked(r, ec); if (!ec) got.reset(new ip::tcp::socket(std::move(s))); }));
 	}
 	void build() override
@@ -153,7 +154,8 @@ struct ConnectAccept : Scenario
 		add("A.close(ec)", 1, [this]() { error_code ec; if (acc) acc->close(ec); });
 		add("A.close()", 1, [this]() { if (acc) acc->close(); });
 		add("A.destroy", 1, [this]() { acc.reset(); dead[1] = true; });
-		if (when != 1) add("A.async_accept(supersede)", 1, [this]() { if (acc && acc->is_open()) post_accept("A.accept(superseding)"); });
+		if (when != 1) for (int k = 0; k < 3; ++k) add(fmt("A.async_accept(supersede, overload %d)", k), 1, [this, k]() { if (acc && acc->is_open()) post_accept("A.accept(superseding)", k); });
+		if (when != 1) for (int k = 0; k < 3; ++k) add(fmt("A.cancel, then async_accept(overload %d)", k), 1, [this, k]() { if (acc && acc->is_open()) { acc->cancel(); post_accept("A.accept(after cancel)", k); } });
 	}
 	void destroy_objects() override { late.reset(); got.reset(); cli.reset(); acc.reset(); peer.reset(); }
 };
